@@ -14,7 +14,7 @@ from pbt.core import Result, pf_tol, silence, exc_sig
 
 ID = "C20"
 LEVEL = "exploration"
-EXAMPLES = {"quick": 480, "thorough": 9600}
+EXAMPLES = {"quick": 400, "thorough": 8000}
 DEADLINE_S = {"quick": 240, "thorough": 3000}
 SHRINK_S = {"quick": 25, "thorough": 90}
 RULE = ("Hypothesis draws a network recipe (netgen.grid, <=9 buses, optional non-contiguous / unsorted element indices), "
@@ -53,6 +53,7 @@ AWKWARD = ["", " ", "123", "007", "1e5", "-0", "1.0", "0x1F", "1_000", "nan", "N
            "a\\b", "a\nb", "a\tb", "a,b;c", "=1+1", " lead", "trail ", "2024-01-01", "12:30", "pv_module_3", "_module",
            "_object", "x" * 300, "%s", "{0}", "​", "é", "é", "Ω", "a/b", "<b>&amp;</b>", "NULL", "#N/A", "1,5"]
 
+AWKWARD_NUMERIC = ["123", "007", "1e5", "-0", "1.0", "1_000", "0x1F", "1,5"]
 NAME_TABLES = ["bus", "line", "trafo", "trafo3w", "load", "sgen", "gen", "ext_grid", "storage", "shunt", "ward", "xward",
                "impedance", "switch", "motor", "dcline"]
 
@@ -129,8 +130,8 @@ def _finite(lo, hi):
 def _custom_col(draw, fam):
     scalar_only = fam in ("excel", "sqlite")
     kinds = ["bool", "int", "float", "Int64", "string", "obj_str", "boolean"]
-    if not scalar_only:
-        kinds += ["category", "list", "dict", "datetime", "category", "list", "dict", "datetime", "mixed"]
+    if not scalar_only and draw(st.integers(0, 9)) < 6:
+        kinds = ["category", "list", "dict", "datetime", "mixed"]
     kind = draw(st.sampled_from(kinds))
     n = draw(st.integers(1, 4))
     txt = _text(fam == "excel")
@@ -174,7 +175,7 @@ def _deco(draw, fam):
     lossy = fam in ("excel", "sqlite")
     txt = _text(fam == "excel")
     menu = {"name": 6, "netname": 1, "limit": 5, "tiny": 2, "digits": 3, "col": 7, "geo": 3, "std_type": 3,
-            "const_ctrl": 3, "tap_ctrl": 2, "tdi": 2, "characteristic": 1, "group": 3, "measurement": 2, "poly_cost": 2,
+            "const_ctrl": 3, "tap_ctrl": 3, "tdi": 2, "characteristic": 1, "group": 3, "measurement": 3, "poly_cost": 2,
             "pwl_cost": 2, "pf_options": 2, "table": 1}
     if lossy:
         # known shape: list-valued columns (group.element_index, pwl_cost.points) are not written as JSON text, to_sqlite
@@ -183,7 +184,7 @@ def _deco(draw, fam):
     op = draw(netgen.weighted(menu))
     row = st.integers(0, 40)
     if op == "name":
-        return {"op": "name", "tab": draw(st.sampled_from(NAME_TABLES)), "row": draw(row), "v": draw(st.none() | txt | txt)}
+        return {"op": "name", "tab": draw(st.sampled_from(NAME_TABLES)), "row": draw(row), "v": draw(st.sampled_from([None] + AWKWARD_NUMERIC) | txt | txt | txt) if not lossy else draw(st.none() | txt | txt | txt)}
     if op == "netname":
         return {"op": "netname", "v": draw(txt)}
     if op == "limit":
@@ -740,6 +741,8 @@ def check(case):
     res.label("fmt:" + fmt)
     for x in done:
         res.label(x)
+        if ":" in x:
+            res.label(x.split(":")[0] + ":*")
     if any("index" in e for e in recipe["el"]) or any("index" in b for b in recipe["buses"]):
         res.label("custom-index")
         done.append("custom-index")
@@ -802,7 +805,7 @@ def check(case):
 
     # identical calculation results
     if not diffs or mode in ("json", "exact"):
-        a = copy.deepcopy(orig)
+        a = orig      # not needed unchanged any more
         oa = _pf_outcome(a, sn, has_opts)
         ob = _pf_outcome(loaded, sn, len(loaded.user_pf_options) > 0 if isinstance(loaded.get("user_pf_options"), dict) else has_opts)
         if oa != ob:
